@@ -288,15 +288,33 @@ InvisiblePrograms ==
                        Entrypoint("Mutation", "DoFeed") >>, {"invisible-linked"} \cup {"inv-" \o k : k \in S}) }
           : S \in (SUBSET {"emptyfield", "ptr", "ptr2"}) \ {{}} }
 
+\* ---- list-typed variables (added after a breaker's remark: the outer `!` of a non-null list variable was dropped from the
+\*      operation header; schema1 had no list-typed argument at all) -----------------------------------------------------
+tIds  == NonNull(ListOf(NonNull(tID)))            \* [ID!]!
+tTags == ListOf(NonNull(tStr))                    \* [String!]
+tGrid == ListOf(NonNull(ListOf(NonNull(tInt))))   \* [[Int!]!]
+ListSels(a, b, c) == << LinkedA("byIds", "", A1("ids", a), <<Scalar("nickname")>>),
+                        LinkedA("byTags", "", A2("tags", b, "grid", c), <<Scalar("kind")>>) >>
+ListPrograms ==
+  { Prog(<< Component("Query", "Home", <<VarDef("a", tIds), VarDef("b", tTags), VarDef("c", tGrid)>>, ListSels(Var("a"), Var("b"), Var("c"))), EP >>,
+         {"list-variables"}),
+    Prog(<< Field("Query", "Inner", <<VarDef("x", tIds), VarDef("y", tTags), VarDef("z", tGrid)>>, ListSels(Var("x"), Var("y"), Var("z"))),
+            Component("Query", "Home", <<VarDef("a", tIds), VarDef("b", tTags), VarDef("c", tGrid)>>,
+                      << ScalarA("Inner", "", << <<"x", Var("a")>>, <<"y", Var("b")>>, <<"z", Var("c")>> >>) >>), EP >>,
+         {"list-variables", "through-client-field"}),
+    Prog(<< Component("Query", "Home", <<VarDef("a", tIds)>>,
+                      << LinkedA("byIds", "", A1("ids", Var("a")), <<Scalar("nickname"), Scalar("__refetch")>>) >>), EP >>,
+         {"list-variables", "refetch"}) }
+
 Programs == CASE Family = "value"  -> ValueProgramsF
               [] Family = "pair"   -> PairPrograms
               [] Family = "shape2" -> ShapePrograms(2)
               [] Family = "shape3" -> ShapePrograms(3)
               [] Family = "shape4" -> ShapePrograms(4)
               [] Family = "combo"  -> ComboPrograms
-              [] Family = "special" -> SpecialPrograms \cup InvisiblePrograms
-              [] Family = "quick"  -> ValueProgramsF \cup PairPrograms \cup ShapePrograms(2) \cup SpecialPrograms \cup InvisiblePrograms
-              [] Family = "thorough" -> ValueProgramsF \cup PairPrograms \cup ShapePrograms(4) \cup ComboPrograms \cup SpecialPrograms \cup InvisiblePrograms
+              [] Family = "special" -> SpecialPrograms \cup InvisiblePrograms \cup ListPrograms
+              [] Family = "quick"  -> ValueProgramsF \cup PairPrograms \cup ShapePrograms(2) \cup SpecialPrograms \cup InvisiblePrograms \cup ListPrograms
+              [] Family = "thorough" -> ValueProgramsF \cup PairPrograms \cup ShapePrograms(4) \cup ComboPrograms \cup SpecialPrograms \cup InvisiblePrograms \cup ListPrograms
 
 VARIABLE prog
 Init == prog \in Programs
